@@ -235,3 +235,40 @@ def is_snan(t, v):
 
 def quiet(t, v):
     return v | (0x00400000 if t == F32 else 0x0008000000000000)
+
+
+# ---------------------------------------------------------------------------------------------------------------------------------
+# contents and sizes of data segments.  However a translator writes segment bytes into C (array initialisers, string literals, an
+# external blob) and however it splits large objects, memory must hold exactly the module's bytes: byte runs that mean something
+# inside a C string or character literal (quotes, backslashes, trigraphs - which strict ISO modes still replace -, line splices,
+# escapes followed by further digits or hex digits, comment markers, '%'), and segment lengths around 2^k, 32767 (C90's minimum object
+# size limit), 65535 and their multiples.
+SEGMENT_TOKENS = [b'??/', b'??=', b'??(', b'??)', b"??'", b'??!', b'??<', b'??>', b'??-', b'???/', b'??/\n', b'\\', b'"', b"'", b'%', b'%s%n',
+                  b'\n', b'\r', b'\\n', b'\\\n', b'*/', b'/*', b'//', b'\\x41', b'\\101', b'\\u0041', b'\x00', b'\x0012', b'\x01a', b'\x07f', b'\x1b[0m',
+                  b'\x7f', b'\x80', b'\xff', b'\xff\xfe', b'\x0a\x0d', b'?', b'??', b'sure??! (y/n)', b'a\\', b'\\"', b'0', b'9', b'a', b'F', b' ', b'\t',
+                  b'\xc3\xa9', b'\xf0\x9f\x98\x80', b'#include', b'R"(', b'L"', b'u8"', b'<:', b':>', b'<%', b'%>', b'%:']
+SEGMENT_SIZES = [255, 256, 257, 509, 510, 4095, 4096, 4097, 32766, 32767, 32768, 32769, 65533, 65534, 65535, 65536, 65537, 98301, 98304,
+                 100000, 131068, 131071]
+
+
+def segment_text(ch, ln):
+    """ln bytes made of tokens that are hazardous inside C literals"""
+    out = b''
+    while len(out) < ln:
+        out += ch.pick(SEGMENT_TOKENS)
+    return out[:ln]
+
+
+def segment_big(ch, limit, seed=0):
+    """(length, bytes) of a large segment: a length from SEGMENT_SIZES (or a multiple of 32767 / 65535) that fits `limit`, contents a
+    cheap byte sequence without long periods, with hazard text at the start, around every multiple of 32767 and at the end"""
+    sizes = [z for z in SEGMENT_SIZES + [32767 * (2 + ch.below(3)), 65535 * (1 + ch.below(2)), 65536 * (1 + ch.below(2)) + ch.below(3) - 1] if z <= limit]
+    if not sizes:
+        return None
+    ln = ch.pick(sizes)
+    data = bytearray(((i * 7 + (i >> 8) * 13 + (i >> 16) * 101 + seed) & 0xff) for i in range(ln))
+    marks = [0, max(ln - 16, 0)] + [k for k in range(32767 - 8, ln - 16, 32767)]
+    for k in marks:
+        t = segment_text(ch, 16)
+        data[k:k + 16] = t[:max(0, min(16, ln - k))]
+    return ln, bytes(data[:ln])
